@@ -60,20 +60,27 @@ void apply_history_step(Family* f, const i64* fcfg, Sk& sk, const Step& s) {
 }
 
 // classes of outcome of one read attempt
-struct ReadResult { bool threw = false; bool bad_alloc = false; std::unique_ptr<Sk> sk; std::string what; };
+// `what` is a fixed array so that recording the outcome allocates nothing; global_new_leak = blocks obtained through ::operator new
+// during the call that are still live after a rejection (exception object already destroyed)
+struct ReadResult { bool threw = false; bool bad_alloc = false; std::unique_ptr<Sk> sk; char what[160] = {0}; long long global_new_leak = 0; };
+void set_what(ReadResult& r, const char* w) { std::strncpy(r.what, w, sizeof(r.what) - 1); }
 
 ReadResult read_bytes(const Sk& proto, int variant, const uint8_t* p, size_t n) {
   ReadResult r; ExactBuf buf(p, n);
+  const long long before = g_global_new_live;
   try { r.sk.reset(proto.de(variant, buf.p, buf.n)); }
-  catch (const std::bad_alloc&) { r.threw = true; r.bad_alloc = true; r.what = "bad_alloc"; }
-  catch (const std::exception& e) { r.threw = true; r.what = e.what(); }
+  catch (const std::bad_alloc&) { r.threw = true; r.bad_alloc = true; set_what(r, "bad_alloc"); }
+  catch (const std::exception& e) { r.threw = true; set_what(r, e.what()); }
+  if (r.threw) r.global_new_leak = g_global_new_live - before;
   return r;
 }
 ReadResult read_stream(const Sk& proto, int variant, const uint8_t* p, size_t total, size_t start, size_t chunk, size_t eof_at, size_t* consumed) {
   ReadResult r; SimFileBuf fb(p, total, start, chunk, eof_at, static_cast<size_t>(-1)); std::istream is(&fb);
+  const long long before = g_global_new_live;
   try { r.sk.reset(proto.de_is(variant, is)); }
-  catch (const std::bad_alloc&) { r.threw = true; r.bad_alloc = true; r.what = "bad_alloc"; }
-  catch (const std::exception& e) { r.threw = true; r.what = e.what(); }
+  catch (const std::bad_alloc&) { r.threw = true; r.bad_alloc = true; set_what(r, "bad_alloc"); }
+  catch (const std::exception& e) { r.threw = true; set_what(r, e.what()); }
+  if (r.threw) r.global_new_leak = g_global_new_live - before;
   if (consumed) *consumed = fb.consumed();
   return r;
 }
@@ -168,6 +175,7 @@ struct C11World: World {
           rejected++;
           if (refused) { /* rejected by the budget, not by the reader: exception safety under allocation failure is not a stated property */ }
           else if (!mark.balanced()) ctx.fail(fp("C11", *sk, variant, pname, "leak-after-reject"), where + ": " + mark.diff());
+          else if (r.global_new_leak > 0) ctx.fail(fp("C11", *sk, variant, pname, "leak-after-reject-outside-allocator"), where + ": " + std::to_string(r.global_new_leak) + " block(s) from ::operator new still live (e.g. the heap buffer of a string item)");
           if (item_state().live.size() != items_before) ctx.fail(fp("C11", *sk, variant, pname, "items-leak-after-reject"), where);
         } else {
           // accepted: only legitimate if the missing tail carried no information
@@ -207,7 +215,7 @@ struct C11World: World {
           const std::string where = std::string("byte ") + std::to_string(off) + " " + std::to_string(b) + "->" + std::to_string(vals[vi]) + " of " + std::to_string(size);
           {
             ReadResult r = path == 0 ? read_bytes(*sk, variant, bad.data(), size) : read_stream(*sk, variant, bad.data(), size, 0, 4096, size, nullptr);
-            if (r.threw) c_rejected++;
+            if (r.threw) { c_rejected++; if (!alloc_state().refused && r.global_new_leak > 0) ctx.fail(fp("C11", *sk, variant, pname, "leak-outside-allocator"), where + ": " + std::to_string(r.global_new_leak) + " block(s) from ::operator new still live after rejection"); }
             else { c_accepted++; battery(f, fcfg, *r.sk, variant); r.sk.reset(); }
           }
           alloc_state().budget = static_cast<size_t>(-1);
